@@ -168,12 +168,22 @@ theorem dhash_flat (m : Msg) : m.dhash = .ok (Flat.dhash m.flat) :=
   dhash_eq m
 example : (Msg.mk [4, 32] [[97], [], [98, 32, 99]]).dhash = .ok (some (Flat.hash [97, 98])) := by decide
 
-/-- `mpt_stream_append` (mptio consumer of fragment lists, after fix 7541cab) and the end of the
-    message: exactly one message arrives on the stream, the content, and its length is returned —
-    empty fragments in any position neither add a delimiter nor lose bytes -/
-theorem sappend_flat (m : Msg) : m.sappend = Flat.sappend m.flat := by
+/-- `mpt_stream_append` (mptio consumer of fragment lists, after fix 7541cab) / `mpt::encode_array::push(message)`
+    and the end of the message: exactly one message arrives, the content, and its length is returned — empty
+    fragments in any position neither add a delimiter nor lose bytes, and it does not matter in how many steps
+    the push function takes each part (`step`: any number of bytes 1..n of the n offered per call) -/
+theorem sappend_flat (m : Msg) (step : Nat → Nat) : m.sappend step = Flat.sappend m.flat := by
   simp [Msg.sappend, Flat.sappend, sappendLoop_eq, Msg.flat]
 example : (Msg.mk [] [[1], [], [2, 3], []]).sappend = (3, [[1, 2, 3]]) := by decide
+example : (Msg.mk [7] [[1, 2, 3, 4, 5], [], [6]]).sappend (fun n => n / 2) = (7, [[7, 1, 2, 3, 4, 5, 6]]) := by decide
+
+/-- the same into a stream on which earlier messages are finished (`done`) and the current one has been started
+    (`cur`, e.g. the message id pushed by `mpt_stream_reply`): the finished messages are untouched, the message
+    under construction is continued by exactly the contiguous bytes -/
+theorem sappend_started_flat (step : Nat → Nat) (frags : List Frag) (cur : List Byte) (done : List (List Byte)) :
+    Msg.sappendLoop step frags cur done 0 = (frags.flatten.length, cur ++ frags.flatten, done) := by
+  rw [sappendLoop_eq]; simp
+example : Msg.sappendLoop (fun _ => 2) [[1, 2, 3], [], [4]] [9] [[8, 8]] 0 = (4, [9, 1, 2, 3, 4], [[8, 8]]) := by decide
 
 /-- `mpt_message_get` on a queue (`len ≤ max`, `off ≤ max`): when the requested stretch lies inside the
     data, the message — one fragment, or two when the data wraps — denotes exactly those bytes of the
